@@ -47,3 +47,34 @@ package collections
 //@   ensures prefix: old(has(c.data, normKey(c, key))) ==> (forall j int :: 0 <= j && j < old(len(c.data[normKey(c, key)])) ==>
 //@       c.data[normKey(c, key)][j].key == old(c.data[normKey(c, key)][j].key) && c.data[normKey(c, key)][j].value == old(c.data[normKey(c, key)][j].value))
 //@   ensures others: forall k string :: k != normKey(c, key) ==> has(c.data, k) == old(has(c.data, k)) && c.data[k] == old(c.data[k])
+
+// ==== Single (scalar variables: HIGHEST_SEVERITY, ...) ====
+//@ func (*Single).Get props C19,C07
+//@   modifies nothing
+//@   ensures result == c.data
+//@ func (*Single).Set props C19,C07
+//@   modifies c.data
+//@   ensures c.data == value
+//@ func (*Single).Reset props C05,C07
+//@   modifies c.data
+//@   ensures c.data == ""
+// ==== BEGIN C03 NamedCollection section ====
+// NamedCollection (ARGS_GET, ARGS_POST, ARGS_PATH, REQUEST_HEADERS, REQUEST_COOKIES ...) delegates to its embedded
+// Map: Add appends exactly one (original key, value) entry under the normalised key and leaves every other key and
+// every earlier entry alone; Len is the number of distinct (normalised) keys -- NOT the number of stored values.
+//@ func (*NamedCollection).Add props C01,C03,C07
+//@   requires c.Map != nil && c.Map.data != nil
+//@   modifies mapof(c.Map.data), keyValue.key, keyValue.value
+//@   ensures has: has(c.Map.data, normKey(c.Map, key))
+//@   ensures grown: len(c.Map.data[normKey(c.Map, key)]) == ite(old(has(c.Map.data, normKey(c.Map, key))), old(len(c.Map.data[normKey(c.Map, key)])), 0) + 1
+//@   ensures last: c.Map.data[normKey(c.Map, key)][len(c.Map.data[normKey(c.Map, key)]) - 1].key == key &&
+//@       c.Map.data[normKey(c.Map, key)][len(c.Map.data[normKey(c.Map, key)]) - 1].value == value
+//@   ensures prefix: old(has(c.Map.data, normKey(c.Map, key))) ==> (forall j int :: 0 <= j && j < old(len(c.Map.data[normKey(c.Map, key)])) ==>
+//@       c.Map.data[normKey(c.Map, key)][j].key == old(c.Map.data[normKey(c.Map, key)][j].key) &&
+//@       c.Map.data[normKey(c.Map, key)][j].value == old(c.Map.data[normKey(c.Map, key)][j].value))
+//@   ensures others: forall k string :: k != normKey(c.Map, key) ==> has(c.Map.data, k) == old(has(c.Map.data, k)) && c.Map.data[k] == old(c.Map.data[k])
+//@ func (*NamedCollection).Len props C03,C07
+//@   requires c.Map != nil
+//@   modifies nothing
+//@   ensures result == len(c.Map.data)
+// ==== END C03 NamedCollection section ====
